@@ -93,8 +93,104 @@ def check_no_input_mutation(ctx, oa, fi, tag, params):
                fi.where)
 
 
+def lump_product(ctx, fm):
+    """LUMP: the matrix returned by merge_matrix_cells is, as a matrix expression, P^T · M · P (M the input matrix, P the merge
+    matrix): a word over matrix atoms with transposition flags is propagated through dot / @ / .T / format conversions."""
+    import ast as _a
+    params = fm.params()
+    M = params[0] if params else "my_matrix"
+    CONV = {"tocsc", "tocsr", "tocoo", "todense", "toarray", "astype", "copy", "asformat", "tolil", "todok"}
+
+    def T(word):
+        return [(a_, not t_) for a_, t_ in reversed(word)]
+
+    def ev(e, env):
+        if isinstance(e, _a.Name):
+            return env.get(e.id, [(e.id, False)])
+        if isinstance(e, _a.Attribute) and e.attr == "T":
+            w = ev(e.value, env)
+            return T(w) if w is not None else None
+        if isinstance(e, _a.Subscript):
+            return ev(e.value, env)
+        if isinstance(e, _a.BinOp) and isinstance(e.op, _a.MatMult):
+            a_, b_ = ev(e.left, env), ev(e.right, env)
+            return a_ + b_ if a_ is not None and b_ is not None else None
+        if isinstance(e, _a.Call) and isinstance(e.func, _a.Attribute):
+            if e.func.attr in ("dot", "__matmul__") and len(e.args) == 1:
+                a_, b_ = ev(e.func.value, env), ev(e.args[0], env)
+                return a_ + b_ if a_ is not None and b_ is not None else None
+            if e.func.attr == "transpose" and not e.args:
+                w = ev(e.func.value, env)
+                return T(w) if w is not None else None
+            if e.func.attr in CONV:
+                return ev(e.func.value, env)
+            d = src(e.func)
+            if d in ("np.dot", "np.matmul", "numpy.dot", "numpy.matmul") and len(e.args) == 2:
+                a_, b_ = ev(e.args[0], env), ev(e.args[1], env)
+                return a_ + b_ if a_ is not None and b_ is not None else None
+            if d in ("np.transpose", "numpy.transpose") and len(e.args) == 1:
+                w = ev(e.args[0], env)
+                return T(w) if w is not None else None
+            if d in ("np.asarray", "np.array", "numpy.asarray", "numpy.array") and e.args:
+                return ev(e.args[0], env)
+        if isinstance(e, _a.Call) and isinstance(e.func, _a.Name) and e.func.id in ("csr_array", "csc_array", "coo_array", "csr_matrix") and \
+                len(e.args) == 1 and isinstance(e.args[0], _a.Name):
+            return ev(e.args[0], env)
+        return None
+
+    env = {}
+
+    def run_block(stmts):
+        for st in stmts:
+            if isinstance(st, _a.Assign) and len(st.targets) == 1 and isinstance(st.targets[0], _a.Name):
+                w = ev(st.value, env)
+                nm = st.targets[0].id
+                if w is not None and len(w) >= 2:
+                    env[nm] = w
+                elif w is not None and len(w) == 1 and w[0][0] != nm:
+                    env[nm] = w                     # alias / transposed alias of another matrix
+                elif w is not None and len(w) == 1:
+                    if w[0][1]:
+                        env[nm] = w                 # X = X.T
+                else:
+                    env.pop(nm, None)
+            elif isinstance(st, _a.If):
+                run_block(st.body)
+                run_block(st.orelse)
+            elif isinstance(st, (_a.For, _a.While, _a.With, _a.Try)):
+                run_block(getattr(st, "body", []))
+    run_block(fm.node.body)
+    rets = [n for n in _a.walk(fm.node) if isinstance(n, _a.Return) and n.value is not None]
+    ctx.instance("LUMP")
+    words = []
+    for r in rets:
+        v = r.value.elts[0] if isinstance(r.value, _a.Tuple) and r.value.elts else r.value
+        words.append(ev(v, env))
+
+    def show(w):
+        return " · ".join(a_ + ("^T" if t_ else "") for a_, t_ in w)
+    if not words or any(w is None for w in words):
+        ctx.inconclusive("LUMP", "C13.merge.product", "the returned matrix is not derived as a product of matrices", fm.where)
+        return
+    for w in words:
+        prod = [x for x in w]
+        if len(prod) == 1 and prod[0] == (M, False):
+            continue            # nothing to merge: input returned
+        good = len(prod) == 3 and prod[1] == (M, False) and prod[0][0] == prod[2][0] and prod[0][0] != M and prod[0][1] is True and prod[2][1] is False
+        if good:
+            ctx.ok("LUMP", "C13.merge.product", f"lumped matrix = {show(prod)} (rows and columns summed with the same merge matrix)", fm.where,
+                   derived=show(prod))
+        elif len(prod) == 3 and sorted(a_ for a_, _ in prod).count(M) == 1 and len({a_ for a_, _ in prod}) == 2:
+            ctx.violate("LUMP", "C13.merge.product", "the lumped matrix is not P^T · M · P: entry (A,B) is not the sum of the original entries "
+                        "over i in A, j in B (for a non-symmetric rate matrix rows no longer sum to zero)", fm.where,
+                        "result = merge_matrix.T.dot(my_matrix.dot(merge_matrix))", witness=f"derived {show(prod)}")
+        else:
+            ctx.inconclusive("LUMP", "C13.merge.product", "form of the lumping product not recognised", fm.where, witness=show(prod))
+
+
 def run(ctx, repo, tier):
     fm = repo.func(RM, "merge_matrix_cells")
+    lump_product(ctx, fm)
     fd = repo.func(RM, "delete_rate_cells")
     fs = repo.func(RM, "merge_sublists")
     fn = repo.func(RM, "sqra_normalize")
